@@ -20,7 +20,8 @@ RULE = ('random API-built designs from gen_designs (3..16 ops, registers, memori
         'hand-shaped families (F18 three-net reconvergence, diamonds of depth 2..5, register rings, '
         'register self-loops through the queried wire, memory write->read loops with 1..2 ports, '
         'balanced equal-delay trees that hit cp_limit) x integer gate_delay_funcs tables '
-        '(unit / random constant / width-dependent / free wires; r and @ negative) x cp_limit in '
+        '(unit / random constant / width-dependent / free wires; r and @ negative), each used as is and '
+        'scaled by 2**-40, 2**-20, 2**20 (exact dyadic floats, results unscaled exactly) x cp_limit in '
         '{1,2,3,100} x tech/ffoverhead x up to 10 (quick) or 30 (thorough) (src,dst) queries per design '
         '(Input->Output, reachable pairs, src=dst loops, unreachable pairs).  Every other case is analysed '
         'while its Block is NOT the working block (working block reset and an unrelated decoy design '
@@ -69,13 +70,16 @@ def make_table(rng):
     return style, tab
 
 
-def delay_funcs(tab):
+def delay_funcs(tab, k=0):
+    """gate_delay_funcs for the table; k != 0 scales every delay by 2**k (exact in floats: the
+    integer delays and all path sums are small integers, so every value is an exact dyadic)"""
+    scale = 1 if k == 0 else 2.0 ** k
     f = {}
     for ch, (a, b) in tab.items():
         if ch == 'm':
-            f[ch] = (lambda mem, a=a, b=b: a + b * mem.id)
+            f[ch] = (lambda mem, a=a, b=b: (a + b * mem.id) * scale)
         else:
-            f[ch] = (lambda width, a=a, b=b: a + b * width)
+            f[ch] = (lambda width, a=a, b=b: (a + b * width) * scale)
     return f
 
 
@@ -417,12 +421,27 @@ def analyse(ctx, i, found, exprs, cases, fq_exprs, fq_cases):
         make_foreign(block)
     bk = {'block': block} if foreign else {}
     style, tab = make_table(rng)
+    # magnitude of the delays: the integer table, and the same table scaled by 2**-40, 2**-20, 2**20
+    # (exact dyadic floats); results are divided by the same power of two, so every comparison
+    # with the integer model / brute force stays exact
+    dk = [0, -40, -20, 20][i % 4]
+    fscale = 2.0 ** dk
+
+    def unscale(v):
+        if v is None or dk == 0:
+            return v
+        q = v / fscale
+        if q != int(q):
+            viol('timing:inexact-scaled-value', 'a timing value %r is not an integer multiple of 2**%d' % (v, dk), {})
+            return q
+        return int(q)
     cp_limit = rng.choice([1, 2, 3, 100, 100])
     nq = 10 if ctx.tier == 'quick' else 30
     g = Graph(block)
     base_rep = {'seed': ctx.seed, 'case': i, 'kind': kind, 'tier': ctx.tier,
                 'queried_while': ('NOT the working block (reset_working_block() + unrelated design built '
                                   'after it; block= passed)' if foreign else 'working block (no block= argument)'),
+                'delay_scale': '2**%d' % dk,
                 'nets': net_strs(g.nets), 'delay_table(op:(a,b) => a+b*width)': {k: list(v) for k, v in tab.items()}}
 
     def viol(sig, what, extra):
@@ -432,7 +451,7 @@ def analyse(ctx, i, found, exprs, cases, fq_exprs, fq_cases):
 
     # ---- implementation
     try:
-        ta = TimingAnalysis(gate_delay_funcs=delay_funcs(tab), **bk)
+        ta = TimingAnalysis(gate_delay_funcs=delay_funcs(tab, dk), **bk)
     except Exception as e:
         viol('timing:raises', 'TimingAnalysis raised %r on an API-built design' % (e,), {})
         return
@@ -443,9 +462,9 @@ def analyse(ctx, i, found, exprs, cases, fq_exprs, fq_cases):
     if len(nix) != len(dump.nets):
         ctx.count('skipped', 'identical-nets')
         return
-    impl_tm = [ta.timing_map.get(w) for w in dump.wires]
+    impl_tm = [unscale(ta.timing_map.get(w)) for w in dump.wires]
     impl_keys = [wid[w] for w in ta.timing_map]
-    impl_max = ta.max_length()
+    impl_max = unscale(ta.max_length())
     cps, printed = quiet(ta.critical_path, print_cp=False, cp_limit=cp_limit)
     limit_hit = 'limit reached' in printed
     impl_cp = [(wid[fw], [nix[n] for n in p]) for fw, p in cps]
@@ -576,11 +595,11 @@ def analyse(ctx, i, found, exprs, cases, fq_exprs, fq_cases):
         for k in (1, 2):
             os.environ['PYRTL_VERIF_ITER_SEED'] = '%d-%d' % (i, k)
             try:
-                tb = TimingAnalysis(gate_delay_funcs=delay_funcs(tab), **bk)
+                tb = TimingAnalysis(gate_delay_funcs=delay_funcs(tab, dk), **bk)
             finally:
                 del os.environ['PYRTL_VERIF_ITER_SEED']
             orders.add(tuple(nix[n] for n in net_order(block, tb) if n.op not in 'r@'))
-            if [tb.timing_map.get(w) for w in dump.wires] != impl_tm:
+            if [unscale(tb.timing_map.get(w)) for w in dump.wires] != impl_tm:
                 viol('timing:order-dependent', 'timing_map depends on the topological order used', {})
         ctx.count('distinct topological orders tried', len(orders))
 
@@ -609,13 +628,15 @@ def analyse(ctx, i, found, exprs, cases, fq_exprs, fq_cases):
     if not (impl_max == 0 and ff == 0):
         got = ta.max_freq(tech_in_nm=tech, ffoverhead=ff) if ff is not None else ta.max_freq(tech_in_nm=tech)
         scale = Fraction(130, tech)
-        period = scale * (exp_max + 189 + 194) if ff is None else scale * exp_max + ff
+        lmax = Fraction(exp_max) * Fraction(2) ** dk
+        period = scale * (lmax + 189 + 194) if ff is None else scale * lmax + ff
         exp = Fraction(10 ** 6) / period
         if abs(Fraction(got) - exp) > exp * Fraction(1, 10 ** 12):
             viol('max_freq', 'max_freq(%r,%r) = %r, documented function of max_length gives %r'
                  % (tech, ff, got, float(exp)), {'tech_in_nm': tech, 'ffoverhead': ff, 'max_length': exp_max})
-        fq_exprs.append('let q := Qred (max_freq_formula (%d # 1) (%d # 1) %s) in (Qnum q, Zpos (Qden q))'
-                        % (impl_max, tech, 'None' if ff is None else '(Some (%d # 1))' % ff))
+        lq = '(%d # 1)' % (impl_max << dk) if dk >= 0 else '(%d # %d)' % (impl_max, 1 << -dk)
+        fq_exprs.append('let q := Qred (max_freq_formula %s (%d # 1) %s) in (Qnum q, Zpos (Qden q))'
+                        % (lq, tech, 'None' if ff is None else '(Some (%d # 1))' % ff))
         fq_cases.append((i, got, tech, ff, impl_max))
 
     # ---- queue the model evaluation
@@ -633,6 +654,7 @@ def analyse(ctx, i, found, exprs, cases, fq_exprs, fq_cases):
     ctx.count('design kind', kind)
     ctx.count('queried while', 'not the working block' if foreign else 'working block')
     ctx.count('delay table style', style)
+    ctx.count('delay scale', '2**%d' % dk)
     ctx.count('nets', min(len(g.nets) // 5 * 5, 40))
     ctx.count('cp_limit reached', limit_hit)
     ctx.count('critical paths returned', min(len(cps), 10))
